@@ -226,6 +226,81 @@ impl<T: Bridge> Bridge for SliceOf<T> {
     }
 }
 
+/// a client codec over the reference table of the contexts (`store_ref_or_object` /
+/// `try_read_ref`): equal strings are one shared object, written once and referred to afterwards
+pub struct SharedStrs(pub Vec<std::rc::Rc<String>>);
+impl BinarySerializer for SharedStrs {
+    fn serialize<O: desert::BinaryOutput>(
+        &self,
+        context: &mut desert::SerializationContext<O>,
+    ) -> desert::Result<()> {
+        use desert::BinaryOutput;
+        context.write_var_u32(self.0.len() as u32);
+        for r in &self.0 {
+            if context.store_ref_or_object(&**r)? {
+                r.as_str().serialize(context)?;
+            }
+        }
+        Ok(())
+    }
+}
+impl BinaryDeserializer for SharedStrs {
+    fn deserialize(context: &mut desert::DeserializationContext<'_>) -> desert::Result<Self> {
+        use desert::BinaryInput;
+        let n = context.read_var_u32()?;
+        let mut out = Vec::new();
+        for _ in 0..n {
+            let known = match context.try_read_ref()? {
+                Some(any) => Some(any.downcast_ref::<String>().expect("a shared string").clone()),
+                None => None,
+            };
+            match known {
+                Some(s) => out.push(std::rc::Rc::new(s)),
+                None => {
+                    let rc = std::rc::Rc::new(String::deserialize(context)?);
+                    // the table keeps a raw pointer: the object must outlive the context
+                    std::mem::forget(rc.clone());
+                    context.state_mut().store_ref(&*rc);
+                    out.push(rc);
+                }
+            }
+        }
+        Ok(SharedStrs(out))
+    }
+}
+impl Bridge for SharedStrs {
+    fn ty() -> Ty {
+        Ty::SharedStrs
+    }
+    fn to_val(&self) -> Val {
+        Val::Seq(self.0.iter().map(|r| Val::Str((**r).clone())).collect())
+    }
+    fn from_val(v: &Val) -> Self {
+        let mut objs: Vec<std::rc::Rc<String>> = Vec::new();
+        let mut out = Vec::new();
+        for it in v.items() {
+            let s = match it {
+                Val::Str(s) => s,
+                o => panic!("bridge: shared string {o:?}"),
+            };
+            let rc = match objs.iter().find(|r| ***r == *s) {
+                Some(r) => r.clone(),
+                None => {
+                    let r = std::rc::Rc::new(s.clone());
+                    // reference ids are keyed by address for the lifetime of a context, and several
+                    // values go through one context: these objects are never freed, so no address
+                    // is met twice
+                    std::mem::forget(r.clone());
+                    objs.push(r.clone());
+                    r
+                }
+            };
+            out.push(rc);
+        }
+        SharedStrs(out)
+    }
+}
+
 /// written through the `str` codec and through a reference (`impl BinarySerializer for &T`)
 pub struct StrOf(pub String);
 impl BinarySerializer for StrOf {
